@@ -610,15 +610,26 @@ func exprStr(e ast.Expr) string {
 
 // findClause finds "Func/case Label" inside fd (the first switch arm, in source order, whose first label prints as Label).
 func findClause(fd *ast.FuncDecl, label string) *ast.CaseClause {
+	// LABEL#N selects the N-th arm (0-based, source order) whose first label prints as LABEL
+	want := 0
+	if i := strings.LastIndex(label, "#"); i > 0 {
+		if n, err := strconv.Atoi(label[i+1:]); err == nil {
+			want, label = n, label[:i]
+		}
+	}
 	var found *ast.CaseClause
+	seen := 0
 	ast.Inspect(fd.Body, func(n ast.Node) bool {
 		if found != nil {
 			return false
 		}
 		if cc, ok := n.(*ast.CaseClause); ok {
 			if caseLabel(cc) == label {
-				found = cc
-				return false
+				if seen == want {
+					found = cc
+					return false
+				}
+				seen++
 			}
 		}
 		return true
